@@ -36,27 +36,30 @@ def showEv : UringRes.Ev → String
 
 `kring <flags> <sqk> <cqk> <c> <cc> : <op> : <op> ...` — ops: `g <ud> <sqe-flags> <len>` get+fill, `f` flush,
 `r` reap, `w` wake-if-needed, `k <n>` consume one batch, `x <i>` complete the i-th in-flight request,
-`o <n>` flush the overflow list, `i` SQ thread goes idle. -/
+`o <n>` flush the overflow list, `i` SQ thread goes idle; `rb` = `get_next_cqe()` returns (reference held, not read),
+`rr` = read through the held reference (run with `krun2`). -/
 
 def splitOps : List String → List String → List (List String) → List (List String)
   | [], cur, acc => (cur.reverse :: acc).reverse
   | ":" :: rest, cur, acc => splitOps rest [] (cur.reverse :: acc)
   | t :: rest, cur, acc => splitOps rest (t :: cur) acc
 
-def parseKOp : List String → Option Ring.KOp
+def parseKOp : List String → Option Ring.KOp2
   | ["g", ud, fl, len] => do
       let ud ← ud.toNat?; let fl ← fl.toNat?; let len ← len.toNat?
-      if ud < Ring.U64 ∧ fl < 256 ∧ len < Ring.W then pure (.get (Ring.sqeWord ud fl len)) else none
-  | ["f"] => some .flush
-  | ["r"] => some .reap
-  | ["w"] => some .wake
-  | ["k", n] => do let n ← n.toNat?; if n < Ring.W then pure (.consume n) else none
-  | ["x", i] => do let i ← i.toNat?; if i < Ring.W then pure (.complete i) else none
-  | ["o", n] => do let n ← n.toNat?; if n < Ring.W then pure (.flushOvf n) else none
-  | ["i"] => some .idle
+      if ud < Ring.U64 ∧ fl < 256 ∧ len < Ring.W then pure (.k (.get (Ring.sqeWord ud fl len))) else none
+  | ["f"] => some (.k .flush)
+  | ["r"] => some (.k .reap)
+  | ["w"] => some (.k .wake)
+  | ["k", n] => do let n ← n.toNat?; if n < Ring.W then pure (.k (.consume n)) else none
+  | ["x", i] => do let i ← i.toNat?; if i < Ring.W then pure (.k (.complete i)) else none
+  | ["o", n] => do let n ← n.toNat?; if n < Ring.W then pure (.k (.flushOvf n)) else none
+  | ["i"] => some (.k .idle)
+  | ["rb"] => some .reapBegin
+  | ["rr"] => some .reapRead
   | _ => none
 
-def parseKOps : List (List String) → Option (List Ring.KOp)
+def parseKOps : List (List String) → Option (List Ring.KOp2)
   | [] => some []
   | o :: os => do let a ← parseKOp o; let r ← parseKOps os; pure (a :: r)
 
@@ -82,6 +85,8 @@ def showKOut : Ring.KOut → String
   | .flushedOvf n => s!"o{n}"
   | .wake b => if b then "w1" else "w0"
   | .idle => "i"
+  | .held i => s!"h{i}"
+  | .borrowed => "bw"
 
 def runKring (toks : List String) : String :=
   match splitOps toks [] [] with
@@ -89,7 +94,7 @@ def runKring (toks : List String) : String :=
     match fl.toNat?, sqk.toNat?, cqk.toNat?, c.toNat?, cc.toNat?, parseKOps ops with
     | some fl, some sqk, some cqk, some c, some cc, some ops =>
       if fl % 2 = 0 ∧ fl / 4 % 256 = 0 ∧ fl / 4096 = 0 ∧ sqk ≤ 10 ∧ cqk ≤ 10 ∧ c < Ring.W ∧ cc < Ring.W then
-        let outs := (Ring.krun Ring.nopKern .fixed (Ring.kinit fl sqk cqk c cc) ops).2
+        let outs := (Ring.krun2 Ring.nopKern .fixed ⟨Ring.kinit fl sqk cqk c cc, none⟩ ops).2
         if outs.isEmpty then "ok" else " ".intercalate (outs.map showKOut)
       else "bad-op"
     | _, _, _, _, _, _ => "bad-op"
